@@ -6,6 +6,10 @@ the line, parse it back (class parser and the public dispatcher `parse_matchline
 version's method list), write it again, and - for pre-1.0 lines - convert it with `to_v1`; every
 result is compared with reference values computed from the case description (exact arithmetic with
 `fractions.Fraction` / `decimal.Decimal`).
+
+Space `history`: the same line oracle after every sequence of up to 3 loads of match files of every
+version (`load_matchfile` / `load_match`), each case in a forked child of the worker; after every
+`load_matchfile` the loaded lines are compared with the lines written into the file.
 """
 import contextlib
 import copy
@@ -936,7 +940,7 @@ def eval_version(case, res):
 FILE_FORMS = ["none"] + A.ALL_VERSIONS  # "none" = 0.1.0 content without a version line
 LOADERS = ["matchfile", "match"]
 PROBE_DIAG = 2
-NBLOCKS_HISTORY = 128
+NBLOCKS_HISTORY = 32
 _PROBES = {}
 _FILES = {}
 
@@ -1496,6 +1500,11 @@ def history_in_core(case):
     return len(ops) <= 2 and all(loader == "matchfile" for _, loader in ops)
 
 
+def history_scope():
+    """the thorough scope: 0-2 loads with either loader, 3 loads with load_matchfile"""
+    return itertools.chain(history_cases((0, 1, 2), LOADERS), history_cases((3,), LOADERS[:1]))
+
+
 QUICK_LIMIT = 1500
 THOROUGH_LIMIT = 45000
 NBLOCKS = 8
@@ -1526,8 +1535,9 @@ BOUNDS = {
     "keysig": "key signatures: 30 keys, all key/alternative pairs, list forms, in the four spellings; four historical 0.1.0 and six 0.3.0 text variants read first",
     "timesig": "time signatures n/d with n<=16(32), d in 1..64, plain and list spelling, list tails",
     "version": "version numbers (a,b,c) and the historical two-number spelling",
-    "history": "call histories: all sequences of 0-3 loads over {0.1.0 file without version line, files of 0.1.0, 0.2.0, 0.3.0, "
-               "0.4.0, 0.5.0, 1.0.0} x {load_matchfile, load_match(create_score=True)}, followed by the complete line oracle (write, "
+    "history": "call histories: all sequences of 0-2 loads over {0.1.0 file without version line, files of 0.1.0, 0.2.0, 0.3.0, "
+               "0.4.0, 0.5.0, 1.0.0} x {load_matchfile, load_match(create_score=True)} and all sequences of 3 loads of these "
+               "files with load_matchfile, followed by the complete line oracle (write, "
                "parse, dispatch, rewrite, to_v1) on the lines of one version, x every version 0.1.0-1.0.0; lines of a version = of "
                "every (kind, version, attribute) family of the line spaces the first 2 cases of the diagonal of its alphabets; the "
                "file of a version = its version line + all of these lines that stand alone in a file (without the header lines "
@@ -1578,8 +1588,8 @@ def spaces(tier, seed):
 
     def hist_cases():
         if thorough:
-            return history_cases((0, 1, 2, 3), LOADERS)
-        rest = (c for c in history_cases((0, 1, 2, 3), LOADERS) if not history_in_core(c))
+            return history_scope()
+        rest = (c for c in history_scope() if not history_in_core(c))
         return itertools.chain(history_cases((0, 1, 2), LOADERS[:1]),
                                A.shard(rest, seed % NBLOCKS_HISTORY, NBLOCKS_HISTORY))
 
